@@ -917,6 +917,9 @@ def Optimize(
   if max_union:
     node = node.Visit(CollapseLongUnions(max_union))
   node = node.Visit(AdjustReturnAndConstantGenericType())
+  # The two visitors above can introduce Any inside a union; simplify again so
+  # that optimizing an already optimized tree is a no-op.
+  node = node.Visit(SimplifyUnions())
   if remove_mutable:
     node = node.Visit(AbsorbMutableParameters())
     node = node.Visit(CombineContainers())
